@@ -272,7 +272,7 @@ static char *mkname(void)
 void eng_gen_table(void)
 {
         w_begin();
-        size_t ng = 1 + rn(3);
+        size_t ng = chance(90) ? 1 + rn(3) : 1 + rn(6);
         size_t ncmd = ng + (chance(70) ? rn(8) : rn(EP.max_cmds - (unsigned)ng + 1));
         if (ncmd > EP.max_cmds) ncmd = EP.max_cmds;
         if (ncmd < ng) ncmd = ng;
@@ -347,7 +347,8 @@ static void gen_args(const struct cat_command *c)
 void eng_gen_line(void)
 {
         unsigned r = rn(100);
-        if (r < EP.p_garbage_line) { unsigned n = rn(12); for (unsigned q = 0; q < n; q++) { uint8_t ch = (uint8_t)rnd(); if (ch == '\n') ch = 'y'; in_putc(ch); } }
+        if (r < EP.p_garbage_line) { unsigned n = chance(92) ? rn(12) : 240 + rn(chance(50) ? 40 : 3000);      /* also lines longer than 255 / several thousand bytes: length counters must not wrap while draining */
+                for (unsigned q = 0; q < n; q++) { uint8_t ch = (uint8_t)rnd(); if (ch == '\n') ch = 'y'; in_putc(ch); } }
         else if (r < EP.p_garbage_line + 4) { unsigned n = rn(3); for (unsigned q = 0; q < n; q++) in_putc('\r'); }
         else {
                 if (chance(5)) in_putc('\r');
